@@ -225,12 +225,16 @@ def hyp_settings(max_examples, **kw):
     )
 
 
-def run_given(ctx, strategy, body, max_examples, seed, **kw):
+def run_given(ctx, strategy, body, max_examples, seed, reduce=None, **kw):
     """Run `body(case)` over `strategy` with a pinned seed.  A Violation raised by the body is
     shrunk by Hypothesis; the final (minimal) one is recorded in ctx.  Other exceptions are
-    harness errors and propagate."""
+    harness errors and propagate.  For expensive bodies pass `reduce=(list_key, budget_s, check_fn)`:
+    Hypothesis' shrink phase is skipped and the list case[list_key] is reduced by budgeted ddmin."""
     import hypothesis
-    from hypothesis import given
+    from hypothesis import Phase, given
+
+    if reduce is not None:
+        kw["phases"] = (Phase.explicit, Phase.generate)
 
     @hypothesis.seed(seed)
     @hyp_settings(max_examples, **kw)
@@ -241,6 +245,23 @@ def run_given(ctx, strategy, body, max_examples, seed, **kw):
     try:
         test()
     except Violation as v:
+        if reduce is not None and isinstance(v.case, dict) and reduce[0] in v.case:
+            from vf.shrink import ddmin_list
+
+            key, budget, check_fn = reduce
+            sig = list(v.sig)
+
+            def fails(cand):
+                c = Ctx(ctx.prop_id, ctx.tier, ctx.seed, findings=ctx.findings)
+                try:
+                    check_fn(c, {**v.case, key: cand})
+                except Violation as v2:
+                    return list(v2.sig) == sig
+                except Exception:
+                    return False
+                return False
+
+            v.case = {**v.case, key: ddmin_list(v.case[key], fails, budget)}
         ctx.record_violation(v)
     except BaseExceptionGroup as eg:  # pragma: no cover - report_multiple_bugs is off
         for e in eg.exceptions:
